@@ -119,41 +119,54 @@ def sliceChunks (lens : List Nat) (a b : Nat) : List Nat :=
       (hi - lo) :: go (off + l) ls
   go 0 lens
 
+/-- values arrive as an arrow ChunkedArray with more than one chunk -/
+def isChunked (vch : Option (List Nat)) : Bool :=
+  match vch with
+  | some lens => decide (lens.length > 1)
+  | none => false
+
+/-- no mask: one block (single thread, contiguous values), the value chunks, or `n_threads` array_split parts -/
+def blocksPlain (rows : List Row) (threads : Nat) (vch : Option (List Nat)) : Option (List (List Row)) :=
+  if threads = 1 && !isChunked vch then some [rows]
+  else if isChunked vch then
+    (let lens := vch.getD []
+     if lens.sum ≠ rows.length then none else some (splitBy rows lens))
+  else if threads = 0 then none
+  else some (arraySplit rows threads)
+
+/-- boolean mask: filtered single block; with chunked values keys and mask are split at the chunk
+lengths; with threads the *positions* of the true entries are split -/
+def blocksBool (rows : List Row) (m : List Bool) (threads : Nat) (vch : Option (List Nat)) : Option (List (List Row)) :=
+  if threads = 1 && !isChunked vch then
+    (if m.length = rows.length then some [selectBool rows m] else none)
+  else if isChunked vch then
+    (let lens := vch.getD []
+     if lens.sum ≠ rows.length then none
+     else if m.length ≠ rows.length then none
+     else some (((splitBy rows lens).zip (splitBy m lens)).map fun p => selectBool p.1 p.2))
+  else if threads = 0 then none
+  else (arraySplit ((nonzero m).map Int.ofNat) threads).mapM (takePositions rows)
+
+/-- positional mask: chunked values are concatenated first; the positions are split across threads -/
+def blocksPos (rows : List Row) (p : List Int) (threads : Nat) : Option (List (List Row)) :=
+  if threads = 1 then (takePositions rows p).map fun b => [b]
+  else if threads = 0 then none
+  else (arraySplit p threads).mapM (takePositions rows)
+
 /-- `_group_func_wrap` + `_chunk_groupby_args`: the blocks of rows handed to
 `_apply_group_method_single_chunk`, in submission order.
-`vchunks = some lens` when the values arrive as an arrow ChunkedArray with those chunk lengths. -/
+`vchunks = some lens` when the values arrive as an arrow ChunkedArray with those chunk lengths.
+A slice is applied first, to keys and values alike (views). -/
 def blocksOf (rows : List Row) (mask : Mask) (threads : Nat) (vchunks : Option (List Nat)) :
     Option (List (List Row)) :=
-  -- a slice is applied first, to keys and values alike (views)
-  let (rows, mask, vchunks) := match mask with
-    | .slice a b =>
-      let (lo, hi) := sliceBounds rows.length a b
-      (sliceSel rows a b, Mask.none, vchunks.map fun lens => (sliceChunks lens lo hi).filter (· ≠ 0))
-    | m => (rows, m, vchunks)
-  let chunked := match vchunks with
-    | some lens => decide (lens.length > 1)
-    | none => false
-  let fancy := match mask with | .pos _ => true | _ => false
-  let chunked := chunked && !fancy
-  if threads = 1 && !chunked then
-    (selectRows rows mask).map fun b => [b]
-  else if chunked then
-    let lens := vchunks.getD []
-    if lens.sum ≠ rows.length then none else
-    let keyBlocks := splitBy rows lens
-    match mask with
-    | .bool m =>
-      if m.length ≠ rows.length then none else
-      some ((keyBlocks.zip (splitBy m lens)).map fun (kb, mb) => selectBool kb mb)
-    | _ => some keyBlocks
-  else if threads = 0 then none
-  else
-    match mask with
-    | .none => some (arraySplit rows threads)
-    | .bool m =>
-      (arraySplit ((nonzero m).map Int.ofNat) threads).mapM (takePositions rows)
-    | .pos p => (arraySplit p threads).mapM (takePositions rows)
-    | .slice _ _ => none
+  match mask with
+  | .none => blocksPlain rows threads vchunks
+  | .bool m => blocksBool rows m threads vchunks
+  | .pos p => blocksPos rows p threads
+  | .slice a b =>
+    let lohi := sliceBounds rows.length a b
+    blocksPlain (sliceSel rows a b) threads
+      (vchunks.map fun lens => (sliceChunks lens lohi.1 lohi.2).filter (· ≠ 0))
 
 /-- `group_<kernel>(group_key, values, ngroups, mask, n_threads, return_count=True)` -/
 def groupKernel (R : Kind → String → Red) (kn : Kernel) (k : Kind) (rows : List Row) (mask : Mask)
